@@ -105,6 +105,10 @@ mut("C17", "close-never-stops-players", IO,
     "          if not self.wait:\n            thread.stop()\n",
     "          pass\n")
 
+mut("C17", "threads-list-shared-between-managers", IO,
+    "    self._threads = []\n",
+    "    self._threads = globals().setdefault('_ALL_THREADS', [])\n")
+
 # ---- C15
 mut("C15", "no-dedupe", CO,
     "      if k not in key_list:\n        key_list.append(k)",
@@ -371,6 +375,11 @@ mut("C06", "div-swaps-denominators", FI,
     "                     self.denpoly * other.numpoly)",
     "      return ZFilter(self.numpoly * other.numpoly,\n"
     "                     self.denpoly * other.denpoly)")
+
+
+mut("C16", "pending-queue-shared-between-mixers", ST,
+    "    self._not_playing = deque() # Tuples (integer delta, iterable)",
+    "    self._not_playing = globals().setdefault('_Q', deque())")
 
 
 # equivalent under the statement (differs only at exact half-sample ties,
